@@ -8,6 +8,7 @@
   root by the model driver, and preserved by every accepted move (C02 T2.3).
 -/
 import Jence.Lemmas.LegalMoves
+import Jence.Lemmas.SpecNodup
 namespace Jence.Props.C01
 open Jence
 
@@ -20,6 +21,13 @@ open Jence
 theorem legal_moves_are_the_rules (g : Game) (b : Board) (wf : Wf g b) (nk : NoKingCapture g) (sm : Spec.SMove) :
     sm ∈ Spec.legalMoves (Spec.abs g) ↔ ∃ m ∈ legalValues g, smove m = sm :=
   legal_refines wf nk sm
+
+/-- **T1.3, with multiplicity** neither list has repeats, so the rules moves denoted by `legal_values` (in generation
+    order) are a permutation of the rules' legal move list: counting one counts the other -/
+theorem legal_lists_agree_as_multisets (g : Game) (b : Board) (wf : Wf g b) (nk : NoKingCapture g) :
+    ((legalValues g).map smove).Perm (Spec.legalMoves (Spec.abs g)) ∧ (generateMoves g true).Nodup ∧
+    (Spec.legalMoves (Spec.abs g)).Nodup :=
+  ⟨legal_perm wf nk, generateMoves_nodup wf, spec_legal_nodup wf⟩
 
 /-- **T1.4** `is_square_attacked` and `is_in_check` (reverse lookups through the PEXT tables) are the rules' `attacked`
     and `inCheck` -/
